@@ -598,7 +598,18 @@ func init() {
 			freshResult(c, fr, c.Fn("graph.InducedSubgraph"), 0, []int{1}, nil, "keeps no memory of V (it views g, by design)")
 			pt := rulePartial(c, func(f string) bool { return filepath.Base(filepath.Dir(f)) == "graph" }, true)
 			pt.MinInst = 20
-			return []*RuleResult{pt, fr, ruleLiteral(c), tri, own, ruleEdgeByte(c, "graph"), vw, ruleRows(c), ruleDegSync(c, all), ruleCounts(c, all), ruleIrreflexive(c, "graph"), ruleRegrow(c, "graph"), ruleSubword(c, func(f string) bool { return strings.HasSuffix(filepath.Dir(f), "/graph") }), ruleRetainHelpers(c), ruleCtorClass(c)}
+			// the text decoders construct graphs too: a negative shift count (converted to uint) reads
+			// every later pair as b = 0, x = 0 and the graph is not the one the string defines
+			decOnly := map[*ssa.Function]bool{}
+			for _, n := range []string{"graph.Graph6Decode", "graph.Sparse6Decode"} {
+				for _, f := range codecScope(c.Fn(n)) {
+					decOnly[f] = true
+				}
+			}
+			dsc := ruleSignConvIn(c, "graph", decOnly, "as a shift count or an index it is huge, and a shift by it yields 0")
+			dsc.Doc = "in the decoders no signed value is converted to an unsigned type unless it is proved not to be negative"
+			dsc.MinInst = 1
+			return []*RuleResult{pt, dsc, fr, ruleLiteral(c), tri, own, ruleEdgeByte(c, "graph"), vw, ruleRows(c), ruleDegSync(c, all), ruleCounts(c, all), ruleIrreflexive(c, "graph"), ruleRegrow(c, "graph"), ruleSubword(c, func(f string) bool { return strings.HasSuffix(filepath.Dir(f), "/graph") }), ruleRetainHelpers(c), ruleCtorClass(c)}
 		},
 		controls: func(ctl *Ctx) []*RuleResult {
 			fr := &RuleResult{Rule: "FRESH"}
